@@ -12,7 +12,7 @@ Objects (see Model/FormulaSpec.lean, Model/Formula.lean):
   every entry equals `denote f k`, and nothing else is present.
 Helper lemmas live in Proofs/Formula*.lean. All theorems are for unbounded nesting depth and length.
 -/
-import ChemModel.Proofs.FormulaInt
+import ChemModel.Proofs.FormulaExact
 
 namespace ChemModel.C01
 open ChemModel.Formula ChemModel.Gen
@@ -78,6 +78,36 @@ theorem parse_render_lookup (f : Formula) (h : f.WF) :
   · rw [if_pos ((ha.keys k).mp hk)]; exact ha.value k hk
   · rw [if_neg (fun h' => hk ((ha.keys k).mpr h'))]; exact ha.absent k hk
 
+/-- **Exact round trip, including the order of the keys.** For every well-formed formula the parser returns the specification's
+    own dict `f.composition` (= `formula_gen.composition`): elements in order of first occurrence in the written text, each with
+    its total, then key 0 with the charge — the very list, not only the same lookups. (This is the `roundtrip` correspondence op
+    "parse = denote" as a theorem; `parse_render` follows from it with `composition_agrees`.) -/
+theorem parse_render_exact (f : Formula) (h : f.WF) : formulaToComposition f.renderStr = .ok f.composition :=
+  roundtrip_exact f h
+
+/-- The specification's dict has no duplicate keys, the occurring elements (+ 0 iff charged) as keys, and `denote f k` as entries. -/
+theorem composition_agrees (f : Formula) (h : f.WF) : Agrees f f.composition :=
+  agrees_composition f (Formula.wfd f h)
+
+/-- **Integer-only formulas give integer amounts.** If no count of `f` is a decimal (`f.noDecimal`), the returned dict agrees with
+    the denotation AND every element amount is a natural number (Python: `n == int(n)` narrows to `int`; this is what the
+    harness rule "integer-only formulas must agree exactly" rests on); the charge entry is an integer in any case. -/
+theorem parse_render_int (f : Formula) (h : f.WF) (hint : f.noDecimal = true) :
+    ∃ c, formulaToComposition f.renderStr = .ok c ∧ Agrees f c ∧
+      (∀ k, k ≠ 0 → k ∈ Comp.keys c → ∃ n : Nat, Comp.get? c k = some (n : Rat)) ∧
+      (0 ∈ Comp.keys c → ∃ z : Int, Comp.get? c 0 = some (z : Rat)) := by
+  obtain ⟨c, hc, ha⟩ := parse_render f h
+  refine ⟨c, hc, ha, ?_, ?_⟩
+  · intro k hk hmem
+    obtain ⟨n, hn⟩ := denote_isNat f hint k hk
+    exact ⟨n, by rw [ha.value k hmem, hn]⟩
+  · intro hmem
+    rw [ha.value 0 hmem]
+    simp only [Formula.denote, if_true]
+    cases f.charge with
+    | none => exact ⟨0, rfl⟩
+    | some ch => exact ⟨ch.val, rfl⟩
+
 /-- The stoichiometric core alone: a rendered term list of any depth parses to its pairs summed per element. -/
 theorem parse_render_stoich (ts : Terms) (h : ts.WF) (hne : ts.isNil = false) :
     ∃ c, parseStoich ts.render = .ok c ∧ (Comp.keys c).Nodup ∧ ∀ k, total c k = total (ts.occ 1) k :=
@@ -130,25 +160,20 @@ theorem accepted_value_sound_part (s : List Char) (c : Comp) (h : parseStoich s 
 theorem den_agrees_with_ast (ts : Terms) (h : ts.WF) : ∃ occ, Den ts.render occ ∧ Equiv occ (ts.occ 1) :=
   den_render ts h
 
-/-- The charge number is read as Python's `int()` reads ASCII text: a plain digit string has its decimal value … -/
-theorem charge_number_digits (ds : List Char) (h : isDigits ds = true) : pyInt ds = some (digitsVal ds) :=
-  pyInt_digits ds h
+/-- **`int()` on the charge number (model), exact characterisation.** `pyInt s = some n` iff `s` is optional ASCII whitespace,
+    non-empty ASCII digit groups joined by SINGLE underscores, optional ASCII whitespace, and `n` is the decimal value of all the
+    digits: ` 3`, `3 `, `1_0`, `007` are read; `1__0`, `_1`, `1_`, `1 0`, the empty / blank string and anything containing another
+    character are refused. -/
+theorem charge_number_iff (s : List Char) (n : Nat) :
+    pyInt s = some n ↔
+      ∃ (w1 w2 : List Char) (gs : List (List Char)),
+        (∀ c ∈ w1, isPySpace c = true) ∧ (∀ c ∈ w2, isPySpace c = true) ∧ gs ≠ [] ∧
+        (∀ g ∈ gs, g ≠ [] ∧ ∀ c ∈ g, c.isDigit = true) ∧ s = w1 ++ (joinUnders gs ++ w2) ∧ n = digitsVal gs.flatten :=
+  pyInt_iff s n
 
-/-- Alphabet bound only: anything `int()` accepts (model) consists of ASCII digits, `_` and ASCII whitespace.
-    (That underscores are single and whitespace only surrounds the number is the content of `charge_number_forms` in the
-    accepting direction; the full `iff` is not proved.) -/
-theorem charge_number_chars (s : List Char) (n : Nat) (h : pyInt s = some n) : ∀ c ∈ s, IntC c :=
-  pyInt_chars s n h
+example : pyInt " 1_2_3\t".toList = some 123 ∧ pyInt "007".toList = some 7 ∧ pyInt "1__0".toList = none ∧ pyInt "_1".toList = none ∧
+    pyInt "1_".toList = none ∧ pyInt "1 0".toList = none ∧ pyInt " ".toList = none ∧ pyInt [] = none := by decide +kernel
 
-/-- **What `int()` accepts on the charge number (model), constructively:** optional ASCII whitespace, non-empty ASCII digit
-    groups joined by single underscores, optional ASCII whitespace — read as the decimal value of all the digits
-    (`" 3"`, `"3 "`, `"1_0"`, `"007"`, `"\t1_2_3\n"`). -/
-theorem charge_number_forms (w1 w2 : List Char) (gs : List (List Char)) (hw1 : ∀ c ∈ w1, isPySpace c = true)
-    (hw2 : ∀ c ∈ w2, isPySpace c = true) (hgs : gs ≠ []) (hall : ∀ g ∈ gs, g ≠ [] ∧ ∀ c ∈ g, c.isDigit = true) :
-    pyInt (w1 ++ (joinUnders gs ++ w2)) = some (digitsVal gs.flatten) :=
-  pyInt_of_groups w1 w2 gs hw1 hw2 hgs hall
-
-example : formulaToComposition "Li@C60 2" = .ok [(3, 1), (6, 120)] := by decide +kernel
 example : formulaToComposition "Si0.9999999B0.0000001" = .ok [(14, 9999999 / 10000000), (5, 1 / 10000000)] := by decide +kernel
 example : formulaToComposition "(Si0.3333333)3" = .ok [(14, 9999999 / 10000000)] := by decide +kernel
 example : formulaToComposition " H 2 O (l) " = .ok [(1, 2), (8, 1)] := by decide +kernel
@@ -157,16 +182,17 @@ example : formulaToComposition "Fe+1__0" = .error .charge ∧ formulaToCompositi
 
 /-! ### `_get_charge` and `_get_leading_integer` on arbitrary strings -/
 
-/-- **`_get_charge` returns exactly on well-formed charge tokens** (success characterisation, for EVERY string `s`):
-    `_get_charge(s) = q` iff `s` is `+` (q = 1), `-` (q = −1), or a sign followed by a non-empty text that `int()` reads as `n`
-    (q = ±n). Every other string is refused: text on both sides of the sign (`3+2` — "Values both before and after charge
-    token"), sign at the end or no sign at all (`3+`, `3`, empty — "+ or - missing"), both signs, a repeated sign,
-    a number `int()` refuses. -/
+/-- **`_get_charge` returns exactly on well-formed charge tokens** (success characterisation, for EVERY string `s`, purely
+    syntactic): `_get_charge(s) = q` iff `s` is `+` (q = 1), `-` (q = −1), or a sign followed by a charge number
+    (`IntText rest n`: optional ASCII blanks, non-empty ASCII digit groups joined by single underscores, optional ASCII blanks;
+    `n` = decimal value of the digits) with q = ±n. Every other string is refused: text on both sides of the sign (`3+2` —
+    "Values both before and after charge token"), sign at the end or no sign at all (`3+`, `3`, empty — "+ or - missing"),
+    both signs, a repeated sign, a number `int()` refuses (`+x`, `+1__0`, `+_1`, `+1 0`, `+ `). -/
 theorem get_charge_ok_iff (s : List Char) (q : Int) :
     getCharge s = .ok q ↔
       (s = ['+'] ∧ q = 1) ∨ (s = ['-'] ∧ q = -1) ∨
-      (∃ rest n, rest ≠ [] ∧ pyInt rest = some n ∧ ((s = '+' :: rest ∧ q = (n : Int)) ∨ (s = '-' :: rest ∧ q = -(n : Int)))) :=
-  getCharge_ok_iff s q
+      (∃ rest n, IntText rest n ∧ ((s = '+' :: rest ∧ q = (n : Int)) ∨ (s = '-' :: rest ∧ q = -(n : Int)))) :=
+  getCharge_ok_iff_text s q
 
 /-- **`_get_leading_integer` never refuses** and splits off exactly the maximal ASCII digit prefix: `p = ds ++ rest`, `ds` all
     digits, `rest` does not start with a digit, the multiplier is `int(ds)`, or 1 when there is no digit.
@@ -303,6 +329,8 @@ example : formulaToComposition "Ca2.832Fe0.6285Mg5.395(CO3)6"
     = .ok [(20, 2832 / 1000), (26, 6285 / 10000), (12, 5395 / 1000), (6, 6), (8, 18)] := by decide +kernel
 example : exRadical.renderStr = ".NHO-(aq)" ∧ exRadical.WF := by decide +kernel
 example : formulaToComposition ".NHO-(aq)" = .ok [(7, 1), (1, 1), (8, 1), (0, -1)] := by decide +kernel
+example : exFeAq.composition = [(26, 1), (1, 12), (8, 6), (0, 3)] ∧ exSoda.composition = [(11, 2), (6, 1), (8, 10), (1, 14)] := by decide +kernel
+example : exSoda.noDecimal = true ∧ exFeAq.noDecimal = true ∧ exAnkerite.noDecimal = false := by decide +kernel
 example : exSoda.denote 8 = 10 ∧ exSoda.denote 1 = 14 ∧ exFeAq.denote 0 = 3 ∧ exFeAq.denote 1 = 12 := by decide +kernel
 
 end ChemModel.C01
